@@ -182,6 +182,9 @@ type Runner struct {
 	// ImplVerdict, if set, inspects an implementation answer and returns a non-empty class when
 	// the implementation-side monitor of the property fired on that line.
 	ImplVerdict func(implLine string) string
+	// ShrinkReject, if set, names request lines on which a mismatch means "the shrunk case left
+	// the property's domain" (e.g. the well-formedness echo); such candidates are not kept.
+	ShrinkReject func(req, impl, model string) bool
 	// TieOnly: a plain model/implementation mismatch is a broken tie, not a failing input.
 	TieOnly bool
 }
@@ -353,7 +356,10 @@ func (r *Runner) shrink(d *Disagreement) {
 		if strings.Contains(d.Key, ":monitor:") && r.ImplVerdict != nil {
 			return r.firstVerdict(lines)
 		}
-		k, _, _ := r.firstDiff(lines)
+		k, im, mo := r.firstDiff(lines)
+		if k >= 0 && r.ShrinkReject != nil && r.ShrinkReject(lines[k], im, mo) {
+			return -1
+		}
 		return k
 	}
 	lines := append([]string{}, d.Case.Lines[:d.LineNo+1]...)
